@@ -1,6 +1,7 @@
 mod abi;
 mod breadcrumb;
 mod c10;
+mod c12;
 mod mapwatch;
 mod ops;
 mod opsworld;
